@@ -113,6 +113,50 @@ def refused_merge_cfgs(draw):
     return g.to_json()
 
 
+@st.composite
+def nullable_chain_cfgs(draw):
+    """Grammars with unit-production chains ending in EMPTY (A: B; B: C; C:
+    EMPTY | t) used in several contexts with different following terminals:
+    lookaheads have to travel through several closure levels."""
+    t = [x[0] for x in L0_TERMS[:4]]
+    nts = ["S", "A", "B", "C"]
+    tok = st.sampled_from(t)
+    X = st.sampled_from(["A", "B", "C"])
+    prods = []
+    n_s = draw(st.integers(2, 4))
+    for _ in range(n_s):
+        shape = draw(st.integers(0, 5))
+        if shape == 0:
+            prods.append(("S", (draw(tok), draw(X))))
+        elif shape == 1:
+            prods.append(("S", (draw(tok), draw(X), draw(tok))))
+        elif shape == 2:
+            prods.append(("S", (draw(X), draw(tok))))
+        elif shape == 3:
+            prods.append(("S", (draw(tok), draw(X), draw(X))))
+        elif shape == 4:
+            prods.append(("S", (draw(X), draw(X), draw(tok))))
+        else:
+            prods.append(("S", (draw(tok), "S", draw(tok))))
+    prods.append(("A", ("B",)))
+    extra_a = draw(st.sampled_from([None, ("A", "t"), ("t", "A"), ("A", "t", "B"), ("t",)]))
+    if extra_a:
+        tt = draw(tok)
+        ea = tuple(tt if x == "t" else x for x in extra_a)
+        if draw(st.booleans()):
+            prods.insert(len(prods) - 1, ("A", ea))   # before the chain alternative
+        else:
+            prods.append(("A", ea))
+    prods.append(("B", ("C",)))
+    if draw(st.booleans()):
+        prods.append(("B", (draw(tok),)))
+    prods.append(("C", ()))
+    if draw(st.booleans()):
+        prods.append(("C", (draw(tok),)))
+    g = normalise(nts, L0_TERMS[:4], prods)
+    return g.to_json()
+
+
 def acyclic(gjson):
     return not CFG.from_json(gjson).is_cyclic()
 
@@ -151,6 +195,26 @@ def tiny_grammars(level=1):
                 g = emit(["S", "A"], [("S", r) for r in sa] + [("A", r) for r in aa])
                 if g:
                     yield g
+
+
+def epsilon_family():
+    """Deterministic exhaustive family of two-non-terminal grammars over one
+    terminal that mix recursion with EMPTY alternatives (the shapes on which
+    the GLR driver's revisit / empty-reduction logic matters).  About 3000
+    grammars after normalisation."""
+    terms = L0_TERMS[:1]
+    s_alts = [("A",), ("a", "a"), ("a",), ("S", "a"), ("A", "S"), ("S", "A"), ("A", "a"), ("a", "A")]
+    a_alts = [(), ("A", "a", "S"), ("A", "a"), ("a",), ("S",), ("S", "a"), ("a", "A"), ("A", "A")]
+    seen = set()
+    for ks in (1, 2):
+        for sa in itertools.combinations(s_alts, ks):
+            for ka in (2, 3):
+                for aa in itertools.combinations(a_alts, ka):
+                    g = normalise(["S", "A"], terms, [("S", r) for r in sa] + [("A", r) for r in aa])
+                    if "A" not in g.nts or g.key() in seen:
+                        continue
+                    seen.add(g.key())
+                    yield g.to_json()
 
 
 def all_token_strings(tnames, max_len):
